@@ -1588,3 +1588,31 @@ Proof.
   assert (Hl : m < length (w_mods w)) by (unfold w; rewrite reach_mods_length; auto).
   simpl. rewrite (call_exact_state w _ m fail HI HO Hl). reflexivity.
 Qed.
+
+(* ---------------------------------------------------------------------- observables of the property record *)
+(* Hook.registered, trainexec, evalexec of every live hook object are the abstract machine's, for every history *)
+Theorem observable_flags n ops h k :
+  forallb safe_op ops = true ->
+  let w := fst (run (w0 n) ops) in
+  let a := arun (a0 n) ops in
+  nth_error (w_hooks w) h = Some k -> k_alive k = true ->
+  exists ak, nth_error (a_hooks a) h = Some ak /\ a_alive ak = true /\
+             registered k = is_some (a_reg ak) /\ k_te k = a_te ak /\ k_ee k = a_ee ak /\ k_cfg k = a_cfg ak.
+Proof.
+  intros Hs w a Hk Ha. destruct (run_sound (w0 n) ops (inv_init n) Hs) as [HI Habs]. rewrite abs_init in Habs.
+  fold w in Habs. fold a in Habs. exists (abs_hook k). rewrite <- Habs, nth_error_abs_hooks, Hk. simpl.
+  rewrite (is_some_abs_reg k Ha). repeat split; auto.
+Qed.
+
+(* "once per call": over the whole event list of a module call a hook object is run once for each of its
+   armed positions, and never more *)
+Theorem once_per_call n ops m fail h :
+  forallb safe_op ops = true -> m < n ->
+  let w := fst (run (w0 n) ops) in
+  let a := arun (a0 n) ops in
+  count_fire h (snd (fst (step w (OCall m fail)))) = b2n (a_fires_pre a h m) + b2n (a_fires_post a h m fail).
+Proof.
+  intros Hs Hm w a. destruct (fires_iff_armed n ops m fail Hs Hm) as [pres [posts [Hc [H1 [H2 _]]]]].
+  fold w in Hc. rewrite Hc. simpl. rewrite count_fire_app. unfold count_fire at 2. simpl.
+  fold (count_fire h posts). fold a in H1, H2. rewrite H1, H2. reflexivity.
+Qed.
